@@ -4,9 +4,13 @@
    BOOL members as bits), by induction over template nesting.
 
    Covered class ([ty_guard], computable): members of integer / REAL / LREAL types, arrays of them,
-   strings on the standard layout, nested structures and arrays of those; BOOL members visible, packed
-   on bytes that no visible non-BOOL member covers (hidden hosts / padding); member names distinct.
-   Not covered: BOOL-array (DWORD) members, BOOL members overlaying a VISIBLE host (module-defined types). *)
+   strings on the standard layout, nested structures and arrays of those; BOOL members visible, on bytes
+   that no non-BOOL member LATER in the member list covers (hidden hosts, padding, or a VISIBLE host that
+   precedes them: module-defined types; host and bits are then both in the dict and the bits win, in the
+   code as in the reference); member names distinct.
+   BOOL[32k] members (DWORD / DWORD arrays, 32 booleans per word) are covered.
+   Not covered: BYTE / WORD / LWORD bit-string members; a BOOL member listed BEFORE a visible member covering its byte;
+   hidden BOOL members. *)
 From Coq Require Import ZifyBool String.
 From PV Require Import Base.Bytes Base.BytesLemmas Base.Res Base.Proto Base.PyStr Model.CodecFloat Model.Path Model.LogixPlan Model.LogixWrite.
 From PV Require Import Spec.EncapParser Spec.MRParser Spec.TargetIface Spec.TargetCore Spec.Project Spec.Expect Spec.TargetLogix.
@@ -115,9 +119,16 @@ Definition is_put (o : op) : bool := match o with OpPut _ _ => true | _ => false
 Definition puts (ops : list op) := filter is_put ops.
 Definition bits (ops : list op) := filter (fun o => negb (is_put o)) ops.
 
-(* every bit operation's byte lies outside every put's range *)
-Definition separated (ops : list op) : Prop :=
-  forall ob bit x off d, In (OpBit ob bit x) ops -> In (OpPut off d) ops -> ob < off \/ off + Expect.blen d <= ob.
+(* every bit operation's byte lies outside the range of every put that comes AFTER it (a put before
+   it — its host member — may cover it: the bit set then lands on the host's byte in both orders) *)
+Definition outside_put (ob : Z) (o : op) : Prop :=
+  match o with OpPut off d => ob < off \/ off + Expect.blen d <= ob | OpBit _ _ _ => True end.
+Fixpoint separated (ops : list op) : Prop :=
+  match ops with
+  | [] => True
+  | OpPut _ _ :: r => separated r
+  | OpBit ob _ _ :: r => Forall (outside_put ob) r /\ separated r
+  end.
 
 Lemma run_ops_app a b img : run_ops (a ++ b) img = obind (run_ops a img) (run_ops b).
 Proof. revert img. induction a as [|o a IH]; intros img; [reflexivity|]. cbn [app run_ops]. destruct (run_op o img); cbn [obind]; [apply IH|reflexivity]. Qed.
@@ -148,17 +159,15 @@ Proof. intros H. destruct o; cbn [obind]; [apply H|reflexivity]. Qed.
 Theorem run_ops_reorder ops : separated ops -> forall img, run_ops ops img = run_ops (puts ops ++ bits ops) img.
 Proof.
   induction ops as [|o r IH]; intros Hsep img; [reflexivity|].
-  assert (Hr : separated r).
-  { intros ob bit x off d H1 H2. apply (Hsep ob bit x off d); right; assumption. }
-  destruct o as [off d|ob bit x]; cbn [puts bits filter is_put negb app run_ops run_op].
-  - apply obind_ext. intros i. apply IH, Hr.
-  - fold (puts r) (bits r). rewrite run_ops_app.
+  destruct o as [off d|ob bit x]; cbn [separated] in Hsep; cbn [puts bits filter is_put negb app run_ops run_op].
+  - apply obind_ext. intros i. apply IH, Hsep.
+  - destruct Hsep as [Hout Hr]. fold (puts r) (bits r). rewrite run_ops_app.
     transitivity (obind (bit_op img ob bit x) (fun j => obind (run_ops (puts r) j) (run_ops (bits r)))).
     { apply obind_ext. intros j. rewrite (IH Hr j). apply run_ops_app. }
     rewrite <- obind_assoc.
     assert (F : Forall (fun o => match o with OpPut off d => ob < off \/ off + Expect.blen d <= ob | _ => False end) (puts r)).
     { apply Forall_forall. intros o Hin. unfold puts in Hin. apply filter_In in Hin as [Hin Hp].
-      destruct o as [off d|]; [|discriminate]. apply (Hsep ob bit x off d); [left; reflexivity|right; exact Hin]. }
+      destruct o as [off d|]; [|discriminate]. rewrite Forall_forall in Hout. exact (Hout _ Hin). }
     rewrite (bit_after_puts (puts r) img ob bit x F). rewrite obind_assoc. apply obind_ext. intros i. reflexivity.
 Qed.
 
@@ -336,12 +345,22 @@ Definition plain_outside (p : project) (b m : member) : bool :=
   | None => false
   end.
 
+(* a BOOL member: bit 0..7, and no non-BOOL member that comes LATER in the member list covers its byte
+   (an earlier one may: the host the bit overlays, as in module-defined types) *)
+Fixpoint bits_guard (p : project) (vis : list member) : bool :=
+  match vis with
+  | [] => true
+  | b :: r => (negb (is_bool_member b)
+               || ((0 <=? m_bit b) && (m_bit b <? 8) && forallb (fun m => is_bool_member m || plain_outside p b m) r))
+              && bits_guard p r
+  end.
+
 Fixpoint ty_guard (fuel : nat) (p : project) (ty : base_ty) : bool :=
   match fuel with
   | O => false
   | S f =>
       match ty with
-      | BAtom c => value_atom c
+      | BAtom c => value_atom c || (c =? C_DWORD)          (* DWORD: 32 BOOLs (a BOOL[32k] member) *)
       | BOpaque _ => false
       | BStruct tid =>
           match find_template (p_templates p) tid with
@@ -355,9 +374,7 @@ Fixpoint ty_guard (fuel : nat) (p : project) (ty : base_ty) : bool :=
                   && forallb (fun m => negb (is_bool_member m && m_hidden m)) (t_members t)
                   && distinct_by Project.text_eqb (map m_name (t_members t))
                   && forallb (fun m => is_bool_member m || (ty_guard f p (m_ty m) && (0 <=? m_arr m))) vis
-                  && forallb (fun b => negb (is_bool_member b)
-                                       || ((0 <=? m_bit b) && (m_bit b <? 8)
-                                           && forallb (fun m => is_bool_member m || plain_outside p b m) vis)) vis
+                  && bits_guard p vis
               end
           end
       end
@@ -402,28 +419,61 @@ Proof.
   - intros Hin. exists s. split; [exact Hin|apply stext_eqb_eq; reflexivity].
 Qed.
 
-Lemma elem_chunk_none f p ty e : ty_guard f p ty = true -> wty_of f p ty = Some e -> elem_chunk e = None.
+Lemma elem_chunk_none f p ty e : ty_guard f p ty = true -> is_bits_ty ty = false -> wty_of f p ty = Some e -> elem_chunk e = None.
 Proof.
   destruct f as [|f]; [discriminate|]. cbn [ty_guard wty_of]. destruct ty as [c|tid|w]; [| |discriminate].
-  - intros Hv H. destruct (atom_name c) as [name|] eqn:En; [|discriminate]. injection H as <-. cbn [elem_chunk].
-    apply (value_atom_no_chunk c name En Hv).
-  - intros _ H. destruct (find_template (p_templates p) tid) as [t|]; [|discriminate].
+  - intros Hv Hb H. destruct (atom_name c) as [name|] eqn:En; [|discriminate]. injection H as <-. cbn [elem_chunk].
+    cbn [is_bits_ty] in Hb.
+    assert (Hv' : value_atom c = true).
+    { destruct (value_atom c); [reflexivity|]. cbn [orb] in Hv. assert (c = C_DWORD) by lia. subst c. discriminate. }
+    apply (value_atom_no_chunk c name En Hv').
+  - intros _ _ H. destruct (find_template (p_templates p) tid) as [t|]; [|discriminate].
     destruct (string_shape t) as [[lm dm]|]; [injection H as <-; reflexivity|].
     match type of H with context [all_some ?l] => destruct (all_some l) end; [injection H as <-; reflexivity|discriminate].
+Qed.
+
+(* under the guard the only bit-string type is DWORD *)
+Lemma guard_bits_dword f p ty : ty_guard f p ty = true -> is_bits_ty ty = true -> ty = BAtom C_DWORD.
+Proof.
+  destruct f as [|f]; [discriminate|]. cbn [ty_guard]. destruct ty as [c|tid|w]; cbn [is_bits_ty]; try discriminate.
+  intros Hv Hb. f_equal.
+  unfold value_atom, atom_signed, atom_unsigned, atom_bits, C_REAL, C_LREAL, C_SINT, C_INT, C_DINT, C_LINT,
+    C_USINT, C_UINT, C_UDINT, C_ULINT, C_BYTE, C_WORD, C_DWORD, C_LWORD in *. lia.
+Qed.
+
+Lemma denotes_bools l vs : Forall2 denotes l vs -> forall bl, as_bools (RList vs) = Some bl -> map truthy l = bl.
+Proof.
+  cbn [as_bools]. induction 1 as [|x v l vs Hxv F IH]; intros bl H; cbn [map all_some] in H.
+  - injection H as <-. reflexivity.
+  - destruct v; try discriminate.
+    destruct (all_some (map (fun x0 => match x0 with RBool b0 => Some b0 | _ => None end) vs)) as [r|] eqn:E; [|discriminate].
+    injection H as <-. inversion Hxv; subst. cbn [map truthy]. rewrite (IH r eq_refl). reflexivity.
+Qed.
+
+(* Array(k, DWORD).encode(32 k booleans) (the class length, no explicit count) *)
+Lemma dword_member_encode l k : length l = (32 * k)%nat -> (0 < k)%nat ->
+  encode_ty (WArray (Z.of_nat k) (WElem n_DWORD)) (PList l) = Ok (bytes_of_bools (32 * k) (map truthy l)).
+Proof.
+  intros Hl Hk. cbn [encode_ty]. unfold array_encode. cbn [py_items elem_chunk]. rewrite dword_chunk.
+  unfold LogixWrite.zlen. rewrite Hl. replace (Z.of_nat (32 * k) <? Z.of_nat k) with false by lia.
+  replace (32 <=? 0) with false by reflexivity.
+  replace (Z.of_nat (32 * k) / 32) with (Z.of_nat k) by lia. rewrite Nat2Z.id.
+  change (Z.to_nat 32) with 32%nat.
+  destruct (chunk_list_32 k (32 * k)%nat l ltac:(lia) Hl) as [C1 C2].
+  change (encode_ty (WElem n_DWORD)) with (fun v : pv => elem_encode n_DWORD v).
+  rewrite C1. rewrite map_length.
+  assert (Hlen : length (chunk_list k 32 l) = k).
+  { clear -Hl. revert l Hl. induction k as [|k IH]; intros l Hl; [reflexivity|].
+    rewrite chunk_list_cons by (intros E; rewrite E in Hl; discriminate).
+    cbn [length]. rewrite IH; [reflexivity|]. rewrite skipn_length. lia. }
+  rewrite Hlen. replace (Z.of_nat k <? Z.of_nat k) with false by lia. cbn [wrap_all].
+  rewrite C2. f_equal. symmetry. apply bytes_of_bools_le_enc; [lia|]. rewrite map_length. lia.
 Qed.
 
 (* ================================================================ the induction *)
 Definition PT (f : nat) (p : project) : Prop :=
   forall bty w rv d x, ty_guard f p bty = true -> wty_of f p bty = Some w ->
     encode_val f p bty rv = Some d -> denotes x rv -> encode_ty w x = Ok d /\ bytes_ok d = true.
-
-Lemma guard_not_bits f p ty : ty_guard f p ty = true -> is_bits_ty ty = false.
-Proof.
-  destruct f as [|f]; [discriminate|]. cbn [ty_guard]. destruct ty as [c|tid|w]; [|reflexivity|discriminate].
-  intros Hv. cbn [is_bits_ty].
-  unfold value_atom, atom_signed, atom_unsigned, atom_bits, C_REAL, C_LREAL, C_SINT, C_INT, C_DINT, C_LINT,
-    C_USINT, C_UINT, C_UDINT, C_ULINT, C_BYTE, C_WORD, C_DWORD, C_LWORD in *. lia.
-Qed.
 
 Lemma bytes_ok_concat ds : Forall (fun d => bytes_ok d = true) ds -> bytes_ok (concat ds) = true.
 Proof. induction 1 as [|d r Hd Hr IH]; [reflexivity|]. cbn [concat]. rewrite bytes_ok_app, Hd, IH. reflexivity. Qed.
@@ -446,27 +496,47 @@ Lemma member_level f p m e v dm xv : PT f p ->
   encode_ty (if m_arr m =? 0 then e else WArray (m_arr m) e) xv = Ok dm /\ bytes_ok dm = true.
 Proof.
   intros HPT Hg Ha Hw Hd Hx. unfold member_data in Hd.
-  destruct (base_size p (m_ty m)) as [s|]; [|discriminate].
+  destruct (base_size p (m_ty m)) as [s|] eqn:Ebs; [|discriminate].
   destruct (m_arr m =? 0) eqn:E0.
   - destruct (encode_val f p (m_ty m) v) as [d|] eqn:E; [|discriminate].
     destruct (Expect.blen d =? s * member_elems m); [|discriminate]. injection Hd as <-.
     exact (HPT _ _ _ _ _ Hg Hw E Hx).
-  - unfold encode_array_with in Hd. rewrite (guard_not_bits f p _ Hg) in Hd.
-    destruct v as [| | | | | |vs]; try discriminate.
-    destruct (Z.of_nat (length vs) =? m_arr m) eqn:El; [|discriminate].
-    destruct (all_some (map (encode_val f p (m_ty m)) vs)) as [ds|] eqn:Eds; [|discriminate].
-    destruct (forallb (fun d0 => Expect.blen d0 =? s) ds); [|discriminate].
-    destruct (Expect.blen (concat ds) =? s * member_elems m); [|discriminate]. injection Hd as <-.
-    inversion Hx as [| | | | |l vs' F|]; subst.
-    destruct (elements_level f p (m_ty m) e l vs ds HPT Hg Hw F Eds) as [M1 M2].
-    assert (Hll : length l = length vs) by (clear -F; induction F; cbn [length]; congruence).
-    cbn [encode_ty]. unfold array_encode. cbn [py_items].
-    rewrite (elem_chunk_none f p _ e Hg Hw).
-    unfold LogixWrite.zlen. replace (Z.of_nat (length l) <? m_arr m) with false by lia.
-    rewrite firstn_all2 by lia. rewrite M1.
-    pose proof (all_some_length _ _ Eds) as Hds. rewrite map_length in Hds.
-    replace (Z.of_nat (length ds) <? m_arr m) with false by lia. cbn [wrap_all].
-    split; [reflexivity|apply bytes_ok_concat, M2].
+  - unfold encode_array_with in Hd. destruct (is_bits_ty (m_ty m)) eqn:Ebits.
+    + (* a BOOL[32 k] member: DWORD array *)
+      pose proof (guard_bits_dword f p _ Hg Ebits) as Ety. rewrite Ety in *.
+      assert (Hs4 : s = 4) by (cbn [base_size] in Ebs; change (atom_size C_DWORD) with (Some 4) in Ebs; congruence).
+      subst s.
+      destruct (as_bools v) as [bl|] eqn:Eab; [|discriminate].
+      destruct (Z.of_nat (length bl) =? 8 * 4 * m_arr m) eqn:El; [|discriminate].
+      destruct (Expect.blen (bytes_of_bools (length bl) bl) =? 4 * member_elems m); [|discriminate]. injection Hd as <-.
+      destruct v as [| | | | | |vs]; try discriminate.
+      inversion Hx as [| | | | |l vs' F|]; subst.
+      pose proof (denotes_bools l vs F bl Eab) as Hbl.
+      assert (Hw' : e = WElem n_DWORD).
+      { destruct f as [|f0]; [discriminate|]. cbn [wty_of] in Hw. injection Hw as <-. reflexivity. }
+      subst e.
+      set (k := Z.to_nat (m_arr m)).
+      assert (Hk : m_arr m = Z.of_nat k) by (unfold k; lia).
+      assert (Hll : length l = (32 * k)%nat) by (rewrite <- (map_length truthy l), Hbl; lia).
+      rewrite Hk. rewrite (dword_member_encode l k Hll ltac:(lia)). rewrite Hbl.
+      replace (length bl) with (32 * k)%nat by (rewrite <- Hbl, map_length; lia).
+      split; [reflexivity|].
+      rewrite (bytes_of_bools_le_enc (4 * k) (32 * k) bl) by (try lia; rewrite <- Hbl, map_length; lia). apply le_enc_ok.
+    + destruct v as [| | | | | |vs]; try discriminate.
+      destruct (Z.of_nat (length vs) =? m_arr m) eqn:El; [|discriminate].
+      destruct (all_some (map (encode_val f p (m_ty m)) vs)) as [ds|] eqn:Eds; [|discriminate].
+      destruct (forallb (fun d0 => Expect.blen d0 =? s) ds); [|discriminate].
+      destruct (Expect.blen (concat ds) =? s * member_elems m); [|discriminate]. injection Hd as <-.
+      inversion Hx as [| | | | |l vs' F|]; subst.
+      destruct (elements_level f p (m_ty m) e l vs ds HPT Hg Hw F Eds) as [M1 M2].
+      assert (Hll : length l = length vs) by (clear -F; induction F; cbn [length]; congruence).
+      cbn [encode_ty]. unfold array_encode. cbn [py_items].
+      rewrite (elem_chunk_none f p _ e Hg Ebits Hw).
+      unfold LogixWrite.zlen. replace (Z.of_nat (length l) <? m_arr m) with false by lia.
+      rewrite firstn_all2 by lia. rewrite M1.
+      pose proof (all_some_length _ _ Eds) as Hds. rewrite map_length in Hds.
+      replace (Z.of_nat (length ds) <? m_arr m) with false by lia. cbn [wrap_all].
+      split; [reflexivity|apply bytes_ok_concat, M2].
 Qed.
 
 Definition tyof (f : nat) (p : project) (m : member) : option (text * Z * wty) :=
@@ -595,27 +665,55 @@ Proof.
   cbn [map fst]. rewrite (IH fs os Es), En. reflexivity.
 Qed.
 
-Lemma separated_of_guard ev p vis fs ops :
-  spec_ops ev p vis fs = Some ops ->
-  forallb (fun b => negb (is_bool_member b)
-                    || ((0 <=? m_bit b) && (m_bit b <? 8) && forallb (fun m => is_bool_member m || plain_outside p b m) vis)) vis = true ->
-  separated ops.
+Lemma op_outside ev p b m v o : is_bool_member b = true -> (is_bool_member m || plain_outside p b m) = true ->
+  op_of ev p m v = Some o -> outside_put (m_off b) o.
 Proof.
-  intros Hs Hg ob bit x off d Hb Hp.
-  destruct (spec_ops_in ev p vis fs ops _ Hs Hb) as (mb & vb & Hmb & Eb).
-  destruct (spec_ops_in ev p vis fs ops _ Hs Hp) as (mp & vp & Hmp & Ep).
-  unfold op_of in Eb, Ep.
-  destruct (is_bool_member mb) eqn:Ebb.
-  2:{ destruct (member_data ev p mb vb); discriminate. }
-  destruct vb; try discriminate. injection Eb as <- <- <-.
-  destruct (is_bool_member mp) eqn:Ebp; [destruct vp; discriminate|].
-  destruct (member_data ev p mp vp) as [dm|] eqn:Ed; [|discriminate]. cbn [option_map] in Ep. injection Ep as <- <-.
-  rewrite forallb_forall in Hg. specialize (Hg mb Hmb). rewrite Ebb in Hg. cbn [negb orb] in Hg.
-  apply andb_true_iff in Hg as [_ Hg]. rewrite forallb_forall in Hg. specialize (Hg mp Hmp). rewrite Ebp in Hg. cbn [orb] in Hg.
-  unfold plain_outside, member_size in Hg. unfold member_data in Ed.
-  destruct (base_size p (m_ty mp)) as [s|]; [|discriminate].
-  destruct (if m_arr mp =? 0 then ev (m_ty mp) vp else encode_array_with ev (m_ty mp) s (m_arr mp) vp) as [d0|]; [|discriminate].
-  destruct (Expect.blen d0 =? s * member_elems mp) eqn:El; [|discriminate]. injection Ed as <-. lia.
+  intros Hb Hm Ho. unfold op_of in Ho. destruct (is_bool_member m) eqn:Ebm.
+  - destruct v; try discriminate. injection Ho as <-. exact I.
+  - destruct (member_data ev p m v) as [dm|] eqn:Ed; [|discriminate]. cbn [option_map] in Ho. injection Ho as <-.
+    cbn [orb] in Hm. unfold plain_outside, member_size in Hm. unfold member_data in Ed. cbn [outside_put].
+    destruct (base_size p (m_ty m)) as [s|]; [|discriminate].
+    destruct (if m_arr m =? 0 then ev (m_ty m) v else encode_array_with ev (m_ty m) s (m_arr m) v) as [d0|]; [|discriminate].
+    destruct (Expect.blen d0 =? s * member_elems m) eqn:El; [|discriminate]. injection Ed as <-. lia.
+Qed.
+
+Lemma spec_ops_forall ev p (P : member -> bool) (Q : op -> Prop) ms : forall fs ops,
+  (forall m v o, P m = true -> op_of ev p m v = Some o -> Q o) ->
+  forallb P ms = true -> spec_ops ev p ms fs = Some ops -> Forall Q ops.
+Proof.
+  induction ms as [|m ms IH]; intros fs ops HPQ Hall H; destruct fs as [|[n v] fs]; cbn [spec_ops] in H; try discriminate.
+  - injection H as <-. constructor.
+  - destruct (Project.text_eqb (m_name m) n); [|discriminate].
+    destruct (op_of ev p m v) as [o|] eqn:Eo; [|discriminate].
+    destruct (spec_ops ev p ms fs) as [os|] eqn:Es; [|discriminate]. injection H as <-.
+    cbn [forallb] in Hall. apply andb_true_iff in Hall as [H1 H2].
+    constructor; [exact (HPQ m v o H1 Eo)|exact (IH fs os HPQ H2 Es)].
+Qed.
+
+Lemma separated_of_guard ev p vis : forall fs ops,
+  spec_ops ev p vis fs = Some ops -> bits_guard p vis = true -> separated ops.
+Proof.
+  induction vis as [|b r IH]; intros fs ops Hs Hg; destruct fs as [|[n v] fs]; cbn [spec_ops] in Hs; try discriminate.
+  - injection Hs as <-. exact I.
+  - destruct (Project.text_eqb (m_name b) n); [|discriminate].
+    destruct (op_of ev p b v) as [o|] eqn:Eo; [|discriminate].
+    destruct (spec_ops ev p r fs) as [os|] eqn:Es; [|discriminate]. injection Hs as <-.
+    cbn [bits_guard] in Hg. apply andb_true_iff in Hg as [Hg0 Hg].
+    specialize (IH fs os Es Hg).
+    unfold op_of in Eo. destruct (is_bool_member b) eqn:Ebb.
+    + destruct v; try discriminate. injection Eo as <-. cbn [separated]. split; [|exact IH].
+      cbn [negb orb] in Hg0. apply andb_true_iff in Hg0 as [_ Hout].
+      apply (spec_ops_forall ev p (fun m => is_bool_member m || plain_outside p b m) (outside_put (m_off b)) r fs os); [|exact Hout|exact Es].
+      intros m v' o Hm Ho. exact (op_outside ev p b m v' o Ebb Hm Ho).
+    + destruct (member_data ev p b v); [|discriminate]. cbn [option_map] in Eo. injection Eo as <-. cbn [separated]. exact IH.
+Qed.
+
+Lemma bits_guard_range p vis : bits_guard p vis = true ->
+  forallb (fun b => negb (is_bool_member b) || ((0 <=? m_bit b) && (m_bit b <? 8))) vis = true.
+Proof.
+  induction vis as [|b r IH]; [reflexivity|]. cbn [bits_guard forallb]. intros H. apply andb_true_iff in H as [H0 H1].
+  rewrite (IH H1), andb_true_r. destruct (is_bool_member b); cbn [negb orb] in *; [|reflexivity].
+  apply andb_true_iff in H0 as [H0 _]. exact H0.
 Qed.
 
 Lemma NoDup_map_inj {A B} (f : A -> B) l a b : NoDup (map f l) -> In a l -> In b l -> f a = f b -> a = b.
@@ -661,6 +759,22 @@ Proof.
   destruct bty as [c|tid|ow]; [| |discriminate].
   - (* elementary *)
     cbn [ty_guard] in Hg. cbn [wty_of] in Hw. cbn [encode_val] in He.
+    destruct (value_atom c) eqn:Hv; cbn [orb] in Hg.
+    2:{ (* DWORD: 32 booleans *)
+        assert (c = C_DWORD) by lia. subst c. clear Hg Hv.
+        change (atom_name C_DWORD) with (Some n_DWORD) in Hw. cbn [option_map] in Hw. injection Hw as <-.
+        unfold encode_atom in He. change (atom_size C_DWORD) with (Some 4) in He. cbv beta iota in He.
+        destruct rv as [| | | | | |vs]; try discriminate.
+        change (atom_bits C_DWORD) with true in He. cbv beta iota in He.
+        destruct (as_bools (RList vs)) as [bl|] eqn:Eab; [|discriminate].
+        destruct (Z.of_nat (length bl) =? 8 * 4) eqn:El; [|discriminate]. injection He as <-.
+        inversion Hx as [| | | | |l vs' F|]; subst.
+        pose proof (denotes_bools l vs F bl Eab) as Hbl.
+        assert (Hll : length l = 32%nat) by (rewrite <- (map_length truthy l), Hbl; lia).
+        cbn [encode_ty]. rewrite (dword_encode l Hll), Hbl.
+        replace (length bl) with 32%nat by lia.
+        rewrite (bytes_of_bools_le_enc 4 32 bl) by lia. split; [reflexivity|apply le_enc_ok]. }
+    clear Hg. rename Hv into Hg.
     destruct (atom_name c) as [name|] eqn:En; [|discriminate]. injection Hw as <-.
     assert (Hd : denotes_atom c x rv).
     { unfold encode_atom in He. destruct (atom_size c) as [s|]; [|discriminate].
@@ -734,9 +848,7 @@ Proof.
       assert (Hp2 : forall m, In m all -> m_hidden m = false -> ~ In (m_name m) priv).
       { intros m Hin Hh Hc. unfold priv in Hc. apply in_map_iff in Hc as (m' & E & Hm'). apply filter_In in Hm' as [Hm' Hh'].
         assert (m' = m) by (apply (NoDup_map_inj m_name all m' m Hnd Hm' Hin E)). subst m'. congruence. }
-      assert (Hg2 : forallb (fun b => negb (is_bool_member b) || ((0 <=? m_bit b) && (m_bit b <? 8))) (filter visible all) = true).
-      { apply forallb_forall. intros b Hb. rewrite forallb_forall in Hsep. specialize (Hsep b Hb).
-        destruct (is_bool_member b); cbn [negb orb] in *; [|reflexivity]. apply andb_true_iff in Hsep as [Hs _]. exact Hs. }
+      pose proof (bits_guard_range p _ Hsep) as Hg2.
       destruct (loop1 f p dl priv HPT all fs dl ms_w ops (zeros (Z.to_nat (t_size t))) i1 Hp1 Hp2 Hal Hops Ems Hmem Hnohb (zeros_ok _) Hr1) as [L1 Hok1].
       destruct (loop2 f p dl all fs dl ops i1 d Hal Hops Hg2 Hnohb Hok1 Hr2) as [L2 Hok2].
       rewrite encode_struct_unfold, L1, L2. split; [reflexivity|exact Hok2].
@@ -820,4 +932,37 @@ Qed.
 (* non-vacuity: the example structure of Proofs/WriteFull.v (hidden SINT host with two BOOL members,
    INT, DINT[2]) is in the covered class *)
 Example struct_guard_example : ty_guard (depth_fuel ex_proj) ex_proj (BStruct 672) = true.
+Proof. vm_compute. reflexivity. Qed.
+
+(* a module-defined type: BOOL members overlay the VISIBLE INT host Data that precedes them.  It is in
+   the covered class; with an inconsistent dict (Data = 0, Pt00 = Pt09 = True) the bits win, in the
+   code's encoding as in the reference: Data is stored as 0x0201 *)
+Definition ex_mod : template :=
+  mkTemplate (zs "AB:Embedded_IQ16:I:0") None 3900 4660 8 0
+    [ mkMember (zs "Fault") (BAtom C_DINT) 0 0 0 false;
+      mkMember (zs "Data") (BAtom C_INT) 0 4 0 false;
+      mkMember (zs "Pt00") (BAtom C_BOOL) 0 4 0 false;
+      mkMember (zs "Pt09") (BAtom C_BOOL) 0 5 1 false;
+      mkMember (zs "Pad") (BAtom C_INT) 0 6 0 false ].
+Definition ex_mod_proj : project := mkProject [ex_mod] [mkTag (zs "Local:1:I") 5 ScCtrl (BStruct 3900) [] 0 false 0 0 0 0].
+Definition ex_mod_ty : option wty := Eval vm_compute in wty_of (depth_fuel ex_mod_proj) ex_mod_proj (BStruct 3900).
+Example struct_guard_module_type :
+  ty_guard (depth_fuel ex_mod_proj) ex_mod_proj (BStruct 3900) = true
+  /\ match ex_mod_ty with
+     | None => False
+     | Some ty =>
+         let rv := RStruct [(zs "Fault", RInt 7); (zs "Data", RInt 0); (zs "Pt00", RBool true); (zs "Pt09", RBool true); (zs "Pad", RInt (-1))] in
+         encode_val (depth_fuel ex_mod_proj) ex_mod_proj (BStruct 3900) rv = Some [7; 0; 0; 0; 1; 2; 255; 255]
+         /\ encode_ty ty (py_of rv) = Ok [7; 0; 0; 0; 1; 2; 255; 255]
+     end.
+Proof. vm_compute. repeat split; reflexivity. Qed.
+
+(* a structure with a BOOL[64] member (DWORD[2]) and a scalar DWORD is in the covered class *)
+Definition ex_bits : template :=
+  mkTemplate (zs "udtBits") (Some (zs "n2")) 673 17186 16 0
+    [ mkMember (zs "Word") (BAtom C_DWORD) 0 0 0 false;
+      mkMember (zs "Flags") (BAtom C_DWORD) 2 4 0 false;
+      mkMember (zs "N") (BAtom C_DINT) 0 12 0 false ].
+Example struct_guard_bits :
+  ty_guard 3 (mkProject [ex_bits] []) (BStruct 673) = true.
 Proof. vm_compute. reflexivity. Qed.
